@@ -197,3 +197,155 @@ func validatorBounds(p *core.Program, named *types.Named, field *types.Var, leng
 	}
 	return
 }
+
+// c11ShippedPatterns — C11-R9: a `pattern` that a shipped schema gives a type is
+// the constant the type's JSONSchema method publishes (the one its reader or
+// validator compiles, R2). Read from data/schemas/<pkg>/<type>.json ($defs
+// entry named like the Go type) and from the Pattern member of the
+// jsonschema.Schema literal in the type's JSONSchema method.
+func c11ShippedPatterns(c *core.Ctx, rule string) {
+	p := c.P
+	c.Rule(rule, "type-level patterns in the shipped schemas are the constants the code publishes", 3)
+	root := filepath.Join(p.Repo, "data", "schemas")
+	var files []string
+	filepath.Walk(root, func(path string, info os.FileInfo, err error) error {
+		if err == nil && !info.IsDir() && strings.HasSuffix(path, ".json") {
+			files = append(files, path)
+		}
+		return nil
+	})
+	sort.Strings(files)
+	folder := &core.Folder{P: p}
+	n := 0
+	for _, path := range files {
+		b, err := readSubjectFile(path)
+		if err != nil {
+			continue
+		}
+		var doc struct {
+			Defs map[string]struct {
+				Pattern string `json:"pattern"`
+			} `json:"$defs"`
+		}
+		if json.Unmarshal(b, &doc) != nil {
+			continue
+		}
+		rel, _ := filepath.Rel(root, path)
+		pkgRel := filepath.Dir(rel)
+		if pkgRel == "." {
+			pkgRel = ""
+		}
+		var names []string
+		for dn := range doc.Defs {
+			names = append(names, dn)
+		}
+		sort.Strings(names)
+		for _, dn := range names {
+			shipped := doc.Defs[dn].Pattern
+			if shipped == "" {
+				continue
+			}
+			fd := p.Func(pkgRel, dn, "JSONSchema")
+			if fd == nil {
+				continue // published through struct tags or an extension hook: R2's business
+			}
+			var code string
+			found := false
+			ast.Inspect(fd.Decl.Body, func(m ast.Node) bool {
+				kv, ok := m.(*ast.KeyValueExpr)
+				if !ok {
+					return true
+				}
+				if id, ok := kv.Key.(*ast.Ident); ok && id.Name == "Pattern" {
+					if s, ok := folder.Fold(fd.Pkg, kv.Value).(string); ok {
+						code, found = s, true
+					}
+				}
+				return true
+			})
+			if !found {
+				continue
+			}
+			n++
+			c.ObAt(rule, fmt.Sprintf("%s/%s#pattern", pkgRel, dn), "data/schemas/"+rel, shipped == code,
+				fmt.Sprintf("data/schemas/%s gives %s the pattern %q, the code publishes (and its reader enforces) %q: consumers of the shipped schema accept a different set of texts than the library", rel, dn, shipped, code))
+		}
+	}
+	if n == 0 {
+		c.Ob(rule, "UNRESOLVED:type-patterns", token.NoPos, false, "no type-level pattern could be paired with a JSONSchema method")
+	}
+}
+
+// c11CurrencyEnum — C11-R10: currency.Code.Validate accepts the codes of the
+// definitions loaded from data/currency/*.json at start-up, and
+// Code.JSONSchema publishes one `const` per definition; the shipped
+// data/schemas/currency/code.json must enumerate exactly those codes, or the
+// library emits documents (currency "XCG") the published schema rejects —
+// or the other way round.
+func c11CurrencyEnum(c *core.Ctx, rule string) {
+	p := c.P
+	c.Rule(rule, "the shipped currency schema enumerates exactly the currency definitions the library loads", 2)
+	dir := filepath.Join(p.Repo, "data", "currency")
+	ents, err := os.ReadDir(dir)
+	if err != nil {
+		c.Ob(rule, "UNRESOLVED:data/currency", token.NoPos, false, "directory not readable")
+		return
+	}
+	defs := map[string]bool{}
+	for _, e := range ents {
+		if e.IsDir() || !strings.HasSuffix(e.Name(), ".json") {
+			continue
+		}
+		b, err := readSubjectFile(filepath.Join(dir, e.Name()))
+		if err != nil {
+			continue
+		}
+		var list []struct {
+			ISOCode string `json:"iso_code"`
+		}
+		if json.Unmarshal(b, &list) != nil {
+			c.Undecided(rule, "data/currency/"+e.Name(), token.NoPos, "not a list of currency definitions")
+			continue
+		}
+		for _, d := range list {
+			if d.ISOCode != "" {
+				defs[d.ISOCode] = true
+			}
+		}
+	}
+	b, err := readSubjectFile(filepath.Join(p.Repo, "data", "schemas", "currency", "code.json"))
+	if err != nil {
+		c.Ob(rule, "UNRESOLVED:data/schemas/currency/code.json", token.NoPos, false, "file not readable")
+		return
+	}
+	var doc struct {
+		Defs map[string]struct {
+			OneOf []struct {
+				Const string `json:"const"`
+			} `json:"oneOf"`
+		} `json:"$defs"`
+	}
+	if json.Unmarshal(b, &doc) != nil {
+		c.Ob(rule, "UNRESOLVED:data/schemas/currency/code.json", token.NoPos, false, "not a schema")
+		return
+	}
+	enum := map[string]bool{}
+	for _, o := range doc.Defs["Code"].OneOf {
+		enum[o.Const] = true
+	}
+	var missing, extra []string
+	for k := range defs {
+		if !enum[k] {
+			missing = append(missing, k)
+		}
+	}
+	for k := range enum {
+		if !defs[k] {
+			extra = append(extra, k)
+		}
+	}
+	sort.Strings(missing)
+	sort.Strings(extra)
+	c.ObAt(rule, "currency/Code#enum", "data/schemas/currency/code.json", len(missing) == 0 && len(extra) == 0 && len(defs) > 100,
+		fmt.Sprintf("the library accepts %d currency codes (data/currency), the shipped schema enumerates %d; accepted but not published: %v; published but not accepted: %v", len(defs), len(enum), missing, extra))
+}
